@@ -57,6 +57,8 @@ pub struct WireMon {
     /// per direction: delivered to the receiver's socket, not yet taken by its task
     readyq: [std::collections::VecDeque<Option<(RFrame, bool)>>; 2],
     consumed_seen: [u64; 2],
+    /// frames in the order the receiving tasks took them out of their sockets: (direction, frame)
+    pub consumed_log: Vec<(usize, RFrame)>,
     pub frames: Vec<(usize, RFrame)>,
     pub closes: [u32; 2],
     pub pings: [u32; 2],
@@ -147,6 +149,7 @@ impl WireMon {
             while self.consumed_seen[dir] < l.dirs[dir].consumed {
                 self.consumed_seen[dir] += 1;
                 if let Some(Some((f, hs))) = self.readyq[dir].pop_front() {
+                    self.consumed_log.push((dir, f.clone()));
                     let fl = self.flows.entry(f.id()).or_default();
                     match f {
                         RFrame::Push { .. } => fl.pushes_consumed[dir] += 1,
